@@ -12,6 +12,9 @@ from ..docmodel import word
 SUPPORTS = {"p", "r", "tab", "br", "sp", "a", "tbl", "fn", "cm", "header", "footer", "r.num"}
 
 
+HEADING_WORD = {1: "Chapter", 2: "Subsection"}     # heading documents only (mbv.docsuite.heading_jobs); "h" is not in SUPPORTS
+
+
 def _inl(inls, notes, comments) -> str:
     out = []
     for i in inls:
@@ -44,6 +47,10 @@ def write_doc(doc: dict) -> bytes:
     for b in doc.get("blocks", []):
         if b[0] == "p":
             main.append(_inl(b[1], notes, comments) + "\r")
+        elif b[0] == "h" and b[1] in HEADING_WORD:
+            # the binary text stream has no outline levels: the library recognises headings of legacy documents by their
+            # wording (DocContent.iterate_units: a line starting with "Chapter" is level 1, with "Subsection" level 2)
+            main.append(HEADING_WORD[b[1]] + " " + _inl(b[2], notes, comments) + "\r")
         elif b[0] == "tbl":
             for row in b[1]:
                 for cell in row:
